@@ -656,10 +656,26 @@ def gen_linalg(repo):
                  'backend/cofactor.h: _cofactor<T,%d>' % n)
         G.define('gen_inverse%d' % n, '(S : Scalar) (src : nat -> S)', 'nat -> S', kernel('backend/inverse.h', '_inverse', n, 'arr'),
                  'backend/inverse.h: _inverse<T,%d> (generic element type)' % n)
+    # ---- size classes and split points of the recursive block inversions (unary_inv_op.h)
+    def splits():
+        txt = G.src('expressions/linalg_ops/unary_inv_op.h')
+        items = []
+        for m in re.finditer(r'enable_if_t_<\s*is_greater_v_<M,(\d+)>\s*&&\s*is_less_equal_v_<M,(\d+)>\s*,\s*bool>\s*=\s*false>\s*FASTOR_INLINE\s+void\s+(\w*inverse_dispatcher)\s*\(', txt):
+            i = txt.index('{', m.end()); j = match_close(txt, i); body = txt[i + 1:j]
+            mn = re.search(r'constexpr\s+size_t\s+N\s*=\s*([^;]+);', body)
+            if not mn:
+                if int(m.group(1)) != 0: raise XErr('%s<%s..%s>: no split point' % (m.group(3), m.group(1), m.group(2)))
+                continue                                    # the closed-form base class (0,4]
+            t, _ = translate(mn.group(1), 'nat', {'M': ('M', 'n')}, ())
+            items.append('(%d, %s, %s, %s)' % ({'inverse_dispatcher': 0, 'ut_inverse_dispatcher': 1, 'lut_inverse_dispatcher': 2}[m.group(3)], m.group(1), m.group(2), t))
+        if len(items) != 18: raise XErr('%d recursive size classes (18 expected: 3 dispatchers x 6)' % len(items))
+        return '[' + (';' + NL).join(items) + ']'
+    G.define('gen_inverse_splits', '(M : nat)', 'list (nat * nat * nat * nat)', splits,
+             'expressions/linalg_ops/unary_inv_op.h: recursive size classes of inverse_dispatcher (0), ut_inverse_dispatcher (1), lut_inverse_dispatcher (2): (dispatcher, lower bound exclusive, upper bound inclusive, split point N)')
     hdr = ('(** GENERATED by lib/cxx2v.py from the C++ source of /repo on every run -- do not edit.\n'
            '    Straight-line closed-form kernels over an arbitrary Scalar; Proofs/ClosedForms.v proves the\n'
            '    adjugate / determinant / inverse identities about these very terms. *)\n'
-           'From Coq Require Import Arith List.\nFrom FastorV Require Import Base.Scalar.\n\n')
+           'From Coq Require Import Arith List.\nFrom FastorV Require Import Base.Scalar.\nImport ListNotations.\n\n')
     return G, hdr + '\n'.join(G.defs)
 
 # ----------------------------------------------------------------------------------------------------
